@@ -210,6 +210,8 @@ def record_restructure(
         "origpay": {n: r.get("pay", []) for n, r in st0["H"].items()},
         "init": st0["H"],
         "entry": _entry_of(st0["H"]),
+        "ng0": st0["ng"],
+        "order": st0["ord"].get(st0["root"], []),
         "events": [],
         "stages": {},
         "hook": {},
